@@ -87,3 +87,40 @@ func TestMakeCorpus(t *testing.T) {
 	}
 	t.Logf("wrote %d corpus files", n)
 }
+
+// TestMakeCorpusExtra adds vectors whose entries are outside G2 by amounts that cancel in the sum of the entries (and
+// at abscissa 1) to the G2_VECTOR corpus: every entry is a canonical E2 encoding, no partial sum test can tell.
+func TestMakeCorpusExtra(t *testing.T) {
+	dir := os.Getenv("VERIF_MKCORPUS")
+	if dir == "" {
+		t.Skip("VERIF_MKCORPUS not set")
+	}
+	swapped, err := g2Swapped()
+	if err != nil {
+		t.Fatal(err)
+	}
+	d := filepath.Join(dir, "G2_VECTOR")
+	_ = os.MkdirAll(d, 0o755)
+	g := bls381.G2Generator()
+	t13, _ := bls381.G2SmallOrderPoint(13, []byte{1})
+	tor := bls381.G2TorsionPoint([]byte{3})
+	cp := bls381.G2CurvePoint([]byte{5})
+	enc := func(p bls381.G2) []byte { return bls381.G2Compress(p, swapped) }
+	k := func(n int64) bls381.G2 { return g.Mul(big.NewInt(n)) }
+	vecs := [][]bls381.G2{
+		{k(5).Add(t13), k(7).Add(t13.Neg())},
+		{k(5), k(3).Add(tor), k(7).Add(tor.Neg())},
+		{k(2).Add(cp), k(9).Add(cp.Neg()), k(4)},
+		{k(1).Add(t13.Mul(big.NewInt(2))), k(6).Add(t13.Neg()), k(8).Add(t13.Neg())},
+		{k(11), k(12)},
+	}
+	for i, v := range vecs {
+		var b []byte
+		for _, p := range v {
+			b = append(b, enc(p)...)
+		}
+		if err := os.WriteFile(filepath.Join(d, fmt.Sprintf("cancel-%02d", i)), b, 0o644); err != nil {
+			t.Fatal(err)
+		}
+	}
+}
